@@ -37,9 +37,11 @@ def gen_case(seed: int, tier: str, index: int) -> Dict[str, Any]:
     n = rng.randint(15, 60) if tier == "quick" else rng.randint(40, 250)
     plan = []
     for _ in range(n):
-        k = rng.choices(["statp", "statp_item", "same", "aba", "refresh", "watch2", "unwatch", "rewatch", "spa_unwatch_all", "one_byte"],
-                        [4, 6, 2, 2, 2, 1, 1, 1, 0.5, 2])[0]
+        k = rng.choices(["statp", "statp_item", "same", "aba", "refresh", "watch2", "unwatch", "rewatch", "spa_unwatch_all", "one_byte", "reentrant"],
+                        [4, 6, 2, 2, 2, 1, 1, 1, 0.5, 2, 1.5])[0]
         plan.append({"op": k, "a": rng.getrandbits(30), "b": rng.getrandbits(30), "n": rng.choice([1, 1, 2, 3, 6]), "gap": rng.choice([0.0, 0.05, 0.4, 1.5])})
+        if k == "reentrant":
+            plan[-1]["action"] = rng.choice(["unwatch_all", "unwatch_self", "unwatch_next"])
     cfg = {"profile": profile, "net": net, "loop": {"cost_small_p": 0.1, "cost_small_max": 0.002}, "tables": tables,
            "snapshot": snaps[(index // len(PROFILES)) % len(snaps)].split("/")[-1]}
     return {"property": PROP, "world": "A", "seed": seed, "cfg": cfg, "plan": plan}
@@ -135,13 +137,19 @@ async def scenario(world: WorldA) -> None:
                 mon_s.unwatch(s_accs[op["b"] % len(s_accs)])
             elif k == "rewatch":
                 mon_c.watch(accs[op["a"] % len(accs)])
-            elif k == "spa_unwatch_all":
+            elif k == "reentrant":
+                # several observers on one item, one of which removes itself / the next one / all of them from inside its callback; then a
+                # change of exactly that item (on the client structure and on the spa's: both structure classes)
+                for mon, lst in ((mon_c, accs), (mon_s, s_accs)):
+                    a = lst[op["a"] % len(lst)]
+                    mon.add_observers(a, 2)
+                    mon.arm(a, op["b"] % 3, op["action"])
                 a = s_accs[op["a"] % len(s_accs)]
-                a.unwatch_all()
-                info = mon_s.watched.get(id(a))
-                if info:
-                    info["active"] = False
-                res.probe("unwatch_all")
+                pos = max(0, min(1022, a.pos))
+                cur = blk[pos:pos + 2]
+                emit([(pos, bytes([cur[0] ^ 0xFF, cur[1] ^ (0xFF if a.length > 1 else 0)]))])
+            elif k == "spa_unwatch_all":
+                mon_s.unwatch_all(s_accs[op["a"] % len(s_accs)])
         world.net.healed = True
         if refreshes:
             await asyncio.wait(refreshes, timeout=400)
